@@ -479,6 +479,8 @@ pub(crate) fn solve_expression(
                         {
                             x as i64 > y
                         }
+                        // NOTE: An unsigned value above i64::MAX is greater than any signed value
+                        (Value::UInt(_), BoolSym::GreaterThan, Value::Int(_)) => true,
                         (Value::Int(x), BoolSym::GreaterThan, Value::UInt(y))
                             if y <= i64::MAX as u64 =>
                         {
@@ -493,6 +495,7 @@ pub(crate) fn solve_expression(
                         {
                             x as i64 >= y
                         }
+                        (Value::UInt(_), BoolSym::GreaterThanOrEqual, Value::Int(_)) => true,
                         (Value::Int(x), BoolSym::GreaterThanOrEqual, Value::UInt(y))
                             if y <= i64::MAX as u64 =>
                         {
@@ -512,6 +515,7 @@ pub(crate) fn solve_expression(
                         {
                             x < y as i64
                         }
+                        (Value::Int(_), BoolSym::LessThan, Value::UInt(_)) => true,
                         (_, BoolSym::LessThan, _) => false,
                         (Value::Float(x), BoolSym::LessThanOrEqual, Value::Float(y)) => x <= y,
                         (Value::Int(x), BoolSym::LessThanOrEqual, Value::Int(y)) => x <= y,
@@ -526,6 +530,7 @@ pub(crate) fn solve_expression(
                         {
                             x <= y as i64
                         }
+                        (Value::Int(_), BoolSym::LessThanOrEqual, Value::UInt(_)) => true,
                         (_, BoolSym::LessThanOrEqual, _) => false,
                         _ => unreachable!(),
                     };
